@@ -320,6 +320,23 @@ func TestVerifC01WireIsRaw(t *testing.T) {
 			return
 		}
 		raw0 := append([]byte(nil), uc.HandshakeState.Hello.Raw...)
+		if len(raw0) == 0 {
+			// the build reported success but left no Hello.Raw to inspect: then no ClientHello may go out either
+			// (only HelloGolang marshals lazily, and it is not in this domain)
+			st.Eval()
+			st.Class("built-without-raw")
+			p := &vfPair{CP: cp, SP: sp, Cli: uc, Srv: Server(sp, vfServerConfig("ecdsa", "public.c01.test"))}
+			var cerr error
+			if pan := vfCatch(func() { cerr, _ = p.Handshake() }); pan != nil {
+				st.Violation(rt, "%s: Handshake panicked: %v", src, pan.Val)
+			}
+			defer p.Close()
+			if hs := vfClientHellosOnWire(cp.Written()); len(hs) != 0 && !bytes.Equal(hs[0], uc.HandshakeState.Hello.Raw) {
+				st.Violation(rt, "%s ech-config=%v: BuildHandshakeState succeeded with an empty Hello.Raw, and the handshake then wrote a %d-byte ClientHello the caller never saw (Hello.Raw afterwards %d bytes; handshake: %v)",
+					src, withECH, len(hs[0]), len(uc.HandshakeState.Hello.Raw), cerr)
+			}
+			return
+		}
 		h0 := vfParseClientHello(raw0)
 		if len(h0.Violations) != 0 {
 			st.Class("first-build-invalid")
